@@ -86,8 +86,47 @@ func (ex *Exec) sharedWrite(msg string) {
 
 // fork chooses among mutually exclusive, exhaustive alternatives.
 func (ex *Exec) fork(mk func() ([]*Term, []uint64)) (int, []uint64) {
+	return ex.forkE(mk, false)
+}
+
+// forkE: with elim=true (only for sites whose alternatives are exhaustive and whose mk is pure and cheap) an
+// alternative that is the only one the byte domains do not refute is taken without a decision.
+func (ex *Exec) forkE(mk func() ([]*Term, []uint64), elim bool) (int, []uint64) {
 	if ex.noFork {
 		panic(noForkMarker{})
+	}
+	var alts []*Term
+	var data []uint64
+	made := false
+	if elim && ex.useDom {
+		alts, data = mk()
+		made = true
+		if len(alts) > 1 {
+			// The byte domains over-approximate the path condition. If they refute all but one alternative,
+			// the remaining one is implied by the path condition (same on every replay: the domains are a
+			// deterministic function of the decisions taken so far).
+			live, liveN := -1, 0
+			for j, a := range alts {
+				if a.IsConst() {
+					if a.BoolVal() {
+						live, liveN = j, liveN+1
+					}
+					continue
+				}
+				if def, feas := ex.dom.check(a); def && !feas {
+					continue
+				}
+				live, liveN = j, liveN+1
+				if liveN > 1 {
+					break
+				}
+			}
+			if liveN == 1 {
+				ex.impliedN++
+				ex.dom.apply(alts[live])
+				return live, data
+			}
+		}
 	}
 	if ex.dpos < len(ex.decisions) {
 		d := ex.decisions[ex.dpos]
@@ -96,7 +135,9 @@ func (ex *Exec) fork(mk func() ([]*Term, []uint64)) (int, []uint64) {
 		ex.dpos++
 		return d.cur, d.data
 	}
-	alts, data := mk()
+	if !made {
+		alts, data = mk()
+	}
 	d := &decision{alts: alts, cur: -1, data: data}
 	before := ex.dom.clone()
 	if !ex.advance(d, before) {
@@ -698,13 +739,13 @@ func (ex *Exec) loadSym(p *SymElem) Val {
 		}
 		return res
 	}
-	i, _ := ex.fork(func() ([]*Term, []uint64) {
+	i, _ := ex.forkE(func() ([]*Term, []uint64) {
 		var alts []*Term
 		for _, g := range groups {
 			alts = append(alts, inSet(p.idx, g.idxs))
 		}
 		return alts, nil
-	})
+	}, true)
 	return groups[i].v
 }
 
@@ -951,7 +992,7 @@ func (ex *Exec) lookup(fr *frame, x *ssa.Lookup) Val {
 		}
 		return res
 	}
-	i, _ := ex.fork(func() ([]*Term, []uint64) {
+	i, _ := ex.forkE(func() ([]*Term, []uint64) {
 		var alts []*Term
 		var all []*Term
 		for _, g := range groups {
@@ -961,7 +1002,7 @@ func (ex *Exec) lookup(fr *frame, x *ssa.Lookup) Val {
 		}
 		alts = append(alts, Not(Or(all...)))
 		return alts, nil
-	})
+	}, true)
 	if i == len(groups) {
 		return ret(zeroV, false)
 	}
@@ -972,11 +1013,26 @@ func (ex *Exec) strEqConst(a *StrV, k string) *Term {
 	if len(a.b) != len(k) {
 		return tFalse
 	}
-	var cs []*Term
+	var csBuf [32]*Term
+	cs := csBuf[:0]
 	for i := range a.b {
 		c := Cmp("=", a.b[i], BVC(8, uint64(k[i])))
-		if c.IsConst() && !c.BoolVal() {
-			return tFalse
+		if c.IsConst() {
+			if !c.BoolVal() {
+				return tFalse
+			}
+			continue
+		}
+		// prefilter by the byte domains of the current path: a key byte no value of the variable can produce
+		if ex.useDom && c.nv == 1 && c.v1.w == 8 {
+			if d := ex.dom.get(c.v1); d != fullSet {
+				x := d.and(setOf(c))
+				if x.empty() {
+					return tFalse
+				}
+			} else if s := setOf(c); s.empty() {
+				return tFalse
+			}
 		}
 		cs = append(cs, c)
 	}
